@@ -241,4 +241,34 @@ theorem run_wf (s : State) (hs : Wf s) (ops : List Op) : Wf (run s ops) := by
   | nil => exact hs
   | cons op ops ih => exact ih _ (step_frame s hs op).1
 
+/-! ## reusable executor: consistency of the executor with its stored arguments -/
+
+/-- what an executor has was built from its stored arguments (invariant of every history) -/
+def RState.Consistent (s : RState) : Prop :=
+  ∀ e, s.cur = some e → e.jobq = e.kwargs.job ∧ e.resq = resultReducers e.kwargs.job e.kwargs.res
+    ∧ e.init = e.kwargs.init ∧ e.initargs = e.kwargs.initargs ∧ e.env = e.kwargs.env
+
+theorem rstep_consistent (same : Kwargs → Kwargs → Bool) (s : RState) (hs : s.Consistent) (op : ROp) :
+    (rstep same s op).Consistent := by
+  intro e he
+  cases op with
+  | req w k =>
+    simp only [rstep, request] at he
+    split at he
+    · simp only [Option.some.injEq] at he; subst he; simp [newRExec]
+    · rename_i e0 h0
+      split at he
+      · simp only [Option.some.injEq] at he; subst he; exact hs e0 h0
+      · simp only [Option.some.injEq] at he; subst he; simp [newRExec]
+  | shutdown =>
+    simp only [rstep, Option.map_eq_some_iff] at he
+    obtain ⟨e0, h0, rfl⟩ := he
+    exact hs e0 h0
+
+theorem rrun_consistent (same : Kwargs → Kwargs → Bool) (ops : List ROp) (s : RState) (hs : s.Consistent) :
+    (rrun same s ops).Consistent := by
+  induction ops generalizing s with
+  | nil => exact hs
+  | cons op rest ih => exact ih _ (rstep_consistent same s hs op)
+
 end LokyModel.Pickle
